@@ -1027,7 +1027,12 @@ class Executor:
                 raise OutOfSubset('callee %s with several outcomes in expression position (line %d)' % (cname, node.lineno))
             return r
         f = self.ev(node.func, st)
-        args = [self.ev(a, st) for a in node.args]
+        args = []
+        for a in node.args:
+            if isinstance(a, ast.Starred):
+                args.extend(self.iter_values(st, self.ev(a.value, st), node))
+            else:
+                args.append(self.ev(a, st))
         kwargs = {k.arg: self.ev(k.value, st) for k in node.keywords}
         if isinstance(f, VNested):
             # straight-line nested helper (closure over the enclosing frame): executed in place
@@ -1085,6 +1090,11 @@ class Executor:
                 return None
             if name == 'index':
                 raise OutOfSubset('list.index at line %d' % node.lineno)
+        if isinstance(c, SetListContent) and name == 'get':
+            # a dict level -> set modelled as a total list of sets (absent key = empty set)
+            idx = args[0]
+            self.oblige(st, 'safe:index', node, z3.And(to_z3(idx) >= 0, to_z3(idx) < to_z3(c.length)), 'level within the modelled range')
+            return VSetView(obj, idx)
         if isinstance(c, SeqContent):
             if name == 'append':
                 v = args[0]
@@ -1165,6 +1175,10 @@ class Executor:
         if isinstance(v, VRange):
             if all(isinstance(x, int) for x in (v.lo, v.hi, v.step)):
                 return list(range(v.lo, v.hi, v.step))
+            if v.step == 1:
+                n = z3.simplify(to_z3(v.hi) - to_z3(v.lo))
+                if z3.is_int_value(n) and 0 <= n.as_long() <= 16:
+                    return [z3.simplify(to_z3(v.lo) + k) for k in range(n.as_long())]
             raise OutOfSubset('iteration over symbolic range without loop contract (line %d)' % node.lineno)
         if isinstance(v, Ref):
             c = st.heap[v.id]
@@ -1183,6 +1197,15 @@ class Executor:
 
     def e_GeneratorExp(self, node, st):
         return VTuple(self.comp_values(node, st))
+
+    def e_SetComp(self, node, st):
+        # a set built from finitely many symbolic elements: kept as the list of its generators' values
+        r = Ref('setcomp')
+        st.heap[r.id] = ListContent(self.comp_values(node, st))
+        return r
+
+    def e_Starred(self, node, st):
+        raise OutOfSubset('starred expression at line %d' % node.lineno)
 
     def comp_values(self, node, st):
         out = []
@@ -1315,6 +1338,14 @@ class Executor:
         return res
 
     def exec_stmt_inner(self, s, st):
+        if self.contract.replace and self.cur_fn is self.fn and not isinstance(s, (ast.If, ast.For, ast.While, ast.With, ast.Try)):
+            line = self.cur_fn.srcfile.line(s.lineno)
+            for (pat, fn) in self.contract.replace:
+                if re.search(pat, line):
+                    self.used_checks.add(pat)
+                    self.notes.append('statement `%s` replaced by its contract' % line.strip())
+                    fn(self, st)
+                    return [(st, None)]
         if self.contract.checks and self.cur_fn is self.fn and not isinstance(s, (ast.If, ast.For, ast.While, ast.With, ast.Try)):
             line = self.cur_fn.srcfile.line(s.lineno)
             for (pat, fn) in self.contract.checks:
@@ -2204,7 +2235,7 @@ class Executor:
                     self.oblige(s2, 'raises', node, S.conj(allowed(self.view(s2))), 'raise %s only when allowed' % exc, label=exc)
             else:
                 raise OutOfSubset('function ends with %r' % (out,))
-        for (pat, _) in self.contract.checks:
+        for (pat, _) in list(self.contract.checks) + list(self.contract.replace):
             if pat not in self.used_checks:
                 raise ContractDrift('write-time contract /%s/ of %s binds to no statement' % (pat, self.fn.name))
         unused = set(self.contract.loops) - self.used_loopspecs
@@ -2584,6 +2615,12 @@ def _np_allclose(ex, st, node, a, b, rtol=Fraction(1, 100000), atol=Fraction(1, 
                                      ab(x - y) <= to_z3(to_real(atol)) + to_z3(to_real(rtol)) * ab(y)))
 
 
-_MODFUNCS = {'math.ceil': _m_ceil, 'np.linalg.norm': _np_norm, 'scipy.linalg.norm': _np_norm, 'np.sqrt': _np_sqrt,
+def _it_product(ex, st, node, *iters):
+    import itertools as _itl
+    lists = [ex.iter_values(st, it, node) for it in iters]
+    return VTuple(VTuple(t) for t in _itl.product(*lists))
+
+
+_MODFUNCS = {'itertools.product': _it_product, 'math.ceil': _m_ceil, 'np.linalg.norm': _np_norm, 'scipy.linalg.norm': _np_norm, 'np.sqrt': _np_sqrt,
              'np.array': _np_array, 'np.allclose': _np_allclose, 'np.empty': _np_alloc(None), 'np.zeros': _np_alloc(0), 'np.ones': _np_alloc(1),
              'np.empty_like': _np_empty_like, 'np.isscalar': _np_isscalar}
